@@ -323,7 +323,7 @@ class ExpectLoopInv(LoopSpec):
         return d
 
     def ghost(self, v):
-        return {'R': TStr(io_kind(v.l.spawn._before)), 'clk': T.Real}
+        return {'R': TStr(io_kind(v.l.spawn._before)), 'clk': T.Real, 'nreads': T.Int}
 
     def modifies(self, v):
         sp = v.l.spawn
@@ -337,14 +337,17 @@ class ExpectLoopInv(LoopSpec):
                ('accounting', eq(pend_of(sp), cat(pend_of(old), v.g['R']))),
                ('nothing-reported', And(same(sp.before, old.before), same(sp.after, old.after),
                                         same(sp.match, old.match), same(sp.match_index, old.match_index))),
-               ('clock-forward', v.g['clk'] >= v.g0['clk'])]
+               ('clock-forward', v.g['clk'] >= v.g0['clk']),
+               ('reads-counted', v.g['nreads'] >= v.g0['nreads'])]
         if v.old.timeout is not None:
             T0 = v.old.timeout
             d = sp.delayafterread
             slack = 0 if d is None else d
             out += [('deadline', And(eq(v.l.end_time, v.g0['clk'] + T0),
                                      eq(v.l.timeout, v.l.end_time - v.g['clk']),
-                                     v.g['clk'] - v.g0['clk'] <= smax(T0, 0) + slack))]
+                                     v.g['clk'] - v.g0['clk'] <= smax(T0, 0) + slack)),
+                    # a deadline that has not passed yet is only given up on after the transport was asked
+                    ('polled-before-giving-up', Or(v.g['nreads'] > v.g0['nreads'], eq(v.l.timeout, T0)))]
         return out
 
 
@@ -362,6 +365,7 @@ class ExpectLoop(Contract):
                    searchwindowsize=W, lookback=L)
         b.ghost('R', b'' if (kind == 'b' and hasattr(b, 'source')) else '')
         b.ghost('clk', b.real('clk0'))
+        b.ghost('nreads', 0)
         return dict(self=me, timeout=b.opt('timeout', lambda: b.real('timeout')))
 
     def instrument(self, args, g):
@@ -403,8 +407,9 @@ def expect_outcome_post(v, old, new, T0, eof_index=None, timeout_index=None, new
     EOFc, TOc = ClassConst('EOF'), ClassConst('TIMEOUT')
     if getattr(v, 'rx', None) is None:      # proof side: the function's own ghosts (R starts empty)
         rx, dt = v.g['R'], v.g['clk'] - v.g0['clk']
+        nr = v.g.get('nreads', 0) - v.g0.get('nreads', 0)
     else:
-        rx, dt = v.rx, v.dt
+        rx, dt, nr = v.rx, v.dt, v.nr
     total = cat(pend_of(old), rx)
     out = [('inv', INV_buf(new))]
     is_eof = eq(new.after, EOFc) is True
@@ -448,7 +453,9 @@ def expect_outcome_post(v, old, new, T0, eof_index=None, timeout_index=None, new
             out += unlisted_clauses('timeout', 'C04:timeout.raised-only-if-unlisted')
         # C05: never TIMEOUT without a finite timeout, and never before it has elapsed
         out += [('C05:timeout.only-with-finite-timeout', T0 is not None),
-                ('C05:timeout.not-early', True if T0 is None else dt >= T0)]
+                ('C05:timeout.not-early', True if T0 is None else dt >= T0),
+                # timeout=0 still examines whatever is immediately readable
+                ('C05:timeout.polls-the-transport-unless-already-expired', True if T0 is None else Implies(T0 >= 0, nr >= 1))]
     else:
         out += [('C01+C04:error.before-is-all', eq(new.before, total)),
                 ('C01:error.consumes-nothing', eq(pend_of(new), total)),
@@ -458,6 +465,7 @@ def expect_outcome_post(v, old, new, T0, eof_index=None, timeout_index=None, new
         d = old.delayafterread
         out.append(('C05:deadline.overall-bound', dt <= smax(T0, 0) + (0 if d is None else d)))
     out.append(('C05:clock-forward', dt >= 0))
+    out.append(('reads-counted', nr >= 0))
     return out
 
 
@@ -494,6 +502,8 @@ def expect_effects(v, sp):
     v.dt = v.draw(T.Real, 'dt')
     v.g['R'] = cat(v.g['R'], v.rx)
     v.g['clk'] = v.g['clk'] + v.dt
+    v.nr = v.draw(T.Int, 'nreads')
+    v.g['nreads'] = v.g.get('nreads', 0) + v.nr
 
 
 # =============================================================================================
